@@ -63,6 +63,13 @@ type FaultResult struct {
 	Sample      interface{}      `json:"sample,omitempty"`
 }
 
+// postCommitClass: a failing truncate/munmap/size/mmap in tryCommitChanges
+// after the new header has been synced. Commit returns an error although the
+// transaction is durable and the in-memory state has been switched; the
+// rollback that follows corrupts the allocator, a failed remap leaves no
+// mapping at all.
+const postCommitClass = "fault/post-commit-remap-failure"
+
 func kindsFor(ck simdisk.CallKind) []simdisk.FaultKind {
 	switch ck {
 	case simdisk.CallWrite:
@@ -79,6 +86,8 @@ type faultRun struct {
 	outcome  []string
 	faultsAt int // Disk.Faults before the current operation
 	txBase   int // Disk.Faults when the running transaction began
+	// a Commit failed in the remap/truncate step after its header had been synced
+	postCommit bool
 }
 
 func (r *faultRun) drain() {
@@ -89,25 +98,31 @@ func (r *faultRun) drain() {
 
 func (r *faultRun) note(s string) { r.outcome = append(r.outcome, s) }
 
-// headerWritten reports whether the log since `from` contains a completed
-// header write followed only by failing syncs (the commit's only failure was
-// its final sync).
-func headerWrittenThenSyncFailed(d *simdisk.Disk, from int) bool {
+// commitPhase inspects the log of a failed commit: was the new header written,
+// and did the first failure happen only after the header had been synced
+// (i.e. in the remap/truncate step that follows the on-disk commit)?
+func commitPhase(d *simdisk.Disk, from int) (headerWritten, failedAfterHeaderSync bool) {
 	_, ops := d.Log()
-	hdr := false
+	synced := false
+	firstFault := true
 	for _, op := range ops[from:] {
 		switch op.Kind {
 		case simdisk.OpWrite:
 			if op.Off/int64(d.PageSize) < 2 && len(op.Data) == pagedrv.HeaderSize {
-				hdr = true
+				headerWritten = true
 			}
 		case simdisk.OpSync:
-			if hdr {
-				return false // header synced: then the commit would not have failed in its write path
+			if headerWritten {
+				synced = true
+			}
+		case simdisk.OpFault:
+			if firstFault {
+				firstFault = false
+				failedAfterHeaderSync = synced
 			}
 		}
 	}
-	return hdr
+	return
 }
 
 // commit is the fault-aware commit.
@@ -142,8 +157,13 @@ func (r *faultRun) commit() {
 	if !faulted && !pagedrv.IsOOM(err) && !tight {
 		e.Viol = append(e.Viol, pagedrv.Violation{Class: "fault/commit-failed-without-failure", Msg: fmt.Sprintf("Commit failed although no I/O call failed: %v", err)})
 	}
-	if headerWrittenThenSyncFailed(e.Disk, l0) {
+	hdr, post := commitPhase(e.Disk, l0)
+	if hdr {
+		// the header was handed to the file: a reopen may show this commit (completely)
 		e.Maybe = &next
+	}
+	if post {
+		r.postCommit = true
 	}
 }
 
@@ -387,6 +407,13 @@ func runFault(cfg pagedrv.Cfg, path []O, rec *FaultRecipe) (viol []pagedrv.Viola
 		v.Class = "fault/" + v.Class
 		viol = append(viol, v)
 	}
+	if r.postCommit {
+		// one call site, many symptoms: everything that follows is attributed to it
+		for i := range viol {
+			viol[i].Msg = "[" + viol[i].Class + "] " + viol[i].Msg
+			viol[i].Class = postCommitClass
+		}
+	}
 	return viol, strings.Join(r.outcome, ","), calls, window, faults
 }
 
@@ -457,7 +484,9 @@ func handleFault(raw []byte) interface{} {
 						}
 						res.Outcomes[outcome]++
 						for _, v := range viol {
-							v.Class = v.Class + "/" + calls[idx].String() + "-" + kind.String()
+							if v.Class != postCommitClass {
+								v.Class = v.Class + "/" + calls[idx].String() + "-" + kind.String()
+							}
 							if seen[v.Class] {
 								continue
 							}
@@ -529,42 +558,49 @@ func txBodyKinds(n *xstate.Node) string {
 
 func runC08(ctx *core.Ctx, pool *par.Pool) {
 	cfgs := []pagedrv.Cfg{pagedrv.CfgA, pagedrv.CfgC}
-	depth := 7
+	depth, seedDepth := 6, 4
 	bursts := []int{1, 2, 3}
 	ctx.SetBudget(120 * time.Second)
 	if !ctx.Quick() {
 		cfgs = []pagedrv.Cfg{pagedrv.CfgA, pagedrv.CfgB, pagedrv.CfgC, pagedrv.CfgF}
-		depth = 9
+		depth, seedDepth = 8, 7
 		ctx.SetBudget(28 * time.Minute)
 	}
 	full := ctx.Deadline
 	var total xstate.Stats
 	plans, effective, histories, calls := 0, 0, 0, 0
 	outcomes := map[string]int{}
-	for _, cfg := range cfgs {
-		cfg := cfg
+	runs := plan(cfgs, []seed{seedTwo, seedWAL, seedTail, seedFull}, depth, seedDepth)
+	for ri, run := range runs {
+		cfg := run.Cfg
 		sigs := map[string]bool{}
 		var tasks []FaultTask
-		ctx.Deadline = ctx.Start.Add(full.Sub(ctx.Start) / 4)
-		st := xstate.BFS(ctx, pool, xstate.Spec{Cfg: cfg, Alphabet: faultAlphabet(ctx.Quick()), MaxDepth: depth, Flags: []string{"iolog"},
+		ctx.Deadline = ctx.Start.Add(full.Sub(ctx.Start) * time.Duration(ri+1) / time.Duration(len(runs)+1) / 2)
+		if ctx.Expired() {
+			ctx.Deadline = time.Now().Add(5 * time.Second)
+		}
+		st := xstate.BFS(ctx, pool, xstate.Spec{Cfg: cfg, Seed: run.Seed.Ops, Alphabet: faultAlphabet(ctx.Quick()), MaxDepth: run.Depth, Flags: []string{"iolog"},
 			OnTransition: func(from *xstate.Node, s *xstate.Succ, isNew bool, to *xstate.Node) {
 				sig := s.IOSig
 				switch s.Op.K {
 				case pagedrv.ORollback, pagedrv.OCloseTx:
 					// size/truncate calls, and whatever the writer still holds of this transaction:
 					// one history per set of operation kinds in the aborted transaction
-					sig = fmt.Sprintf("abort|%v|%s", s.Op, txBodyKinds(from))
+					sig = fmt.Sprintf("abort|%s|%v|%s", run.Seed.Name, s.Op, txBodyKinds(from))
 				case pagedrv.OReopen, pagedrv.OReopenWith:
 					if sig == "" {
 						if from.Depth > 4 {
 							return
 						}
-						sig = fmt.Sprintf("open|%v|%d", s.Op, from.Depth)
+						sig = fmt.Sprintf("open|%s|%v|%d", run.Seed.Name, s.Op, from.Depth)
 					}
 				default:
 					if sig == "" {
 						return
 					}
+				}
+				if s.IOSig != "" && sig == s.IOSig {
+					sig = run.Seed.Name + "|" + sig
 				}
 				if s.Dead || sigs[sig] {
 					return
@@ -575,8 +611,8 @@ func runC08(ctx *core.Ctx, pool *par.Pool) {
 		ctx.Deadline = full
 		total.States += st.States
 		total.Transitions += st.Transitions
-		ctx.Set("depth_"+cfg.Name, st.Depth)
-		ctx.Set("io_shapes_"+cfg.Name, len(sigs))
+		ctx.Set("depth_"+run.name(), st.Depth)
+		ctx.Set("io_shapes_"+run.name(), len(sigs))
 		sort.SliceStable(tasks, func(i, j int) bool { return len(tasks[i].Path) < len(tasks[j].Path) })
 		raw := make([][]byte, len(tasks))
 		for i := range tasks {
